@@ -35,6 +35,9 @@ struct Client {
     acked: usize, // blocks acknowledged
     src_class: String,
     idle_turns: u32,
+    /// further transfers this client performs from the SAME socket, one after the other
+    queue: Vec<Kind>,
+    results: Vec<String>,
 }
 
 fn opts(b: usize, w: usize) -> Vec<TransferOption> {
@@ -64,6 +67,23 @@ impl Client {
         let before = (self.got.len(), self.acked, self.peer.is_some(), self.expected);
         self.turn_inner(listener);
         if self.done {
+            if !self.queue.is_empty() {
+                // the next transfer of this client, from the same endpoint
+                self.results.push(self.result.clone());
+                self.kind = self.queue.remove(0);
+                self.peer = None;
+                self.started = false;
+                self.done = false;
+                self.result = "unfinished".into();
+                self.got.clear();
+                self.expected = 1;
+                self.acked = 0;
+                self.src_class.clear();
+                self.idle_turns = 0;
+                // whatever the finished transfer still has in flight is not part of the next one
+                std::thread::sleep(quiet());
+                while recv_packet(&self.sock, Duration::from_millis(1)).is_some() {}
+            }
             return;
         }
         let after = (self.got.len(), self.acked, self.peer.is_some(), self.expected);
@@ -244,18 +264,30 @@ pub fn multi_line(toks: &[&str]) -> String {
     }
     let listener: SocketAddr = format!("127.0.0.1:{}", port).parse().unwrap();
     let mut clients = vec![];
-    for spec in &toks[5..] {
+    fn parse_kind(spec: &str) -> Option<Kind> {
         let p: Vec<&str> = spec.split(':').collect();
-        let kind = match p.as_slice() {
+        Some(match p.as_slice() {
             ["d", name, b, w] => Kind::Down { name: name.to_string(), b: b.parse().unwrap_or(512), w: w.parse().unwrap_or(1) },
             ["u", name, b, w, rest @ ..] => {
-                let Some(c) = parse_content(&rest.join(":")) else { return "bad-op".into() };
+                let c = parse_content(&rest.join(":"))?;
                 Kind::Up { name: name.to_string(), b: b.parse().unwrap_or(512), w: w.parse().unwrap_or(1), content: c }
             }
             ["i", what] => Kind::Intruder { what: what.to_string() },
             ["x", victim, what] => Kind::Stranger { victim: victim.parse().unwrap_or(0), what: what.to_string() },
-            _ => return "bad-op".into(),
-        };
+            _ => return None,
+        })
+    }
+    for spec in &toks[5..] {
+        // `a+b`: transfer a, then transfer b from the same socket
+        let mut kinds: Vec<Kind> = vec![];
+        for sub in spec.split('+') {
+            match parse_kind(sub) {
+                Some(k) => kinds.push(k),
+                None => return "bad-op".into(),
+            }
+        }
+        let kind = kinds.remove(0);
+        let queue = kinds;
         clients.push(Client {
             kind,
             sock: UdpSocket::bind("127.0.0.1:0").unwrap(),
@@ -268,6 +300,8 @@ pub fn multi_line(toks: &[&str]) -> String {
             acked: 0,
             src_class: String::new(),
             idle_turns: 0,
+            queue,
+            results: vec![],
         });
     }
     for ch in toks[4].chars() {
@@ -297,6 +331,14 @@ pub fn multi_line(toks: &[&str]) -> String {
         }
     }
     std::thread::sleep(Duration::from_millis(if slow() { 200 } else { 10 }));
-    let res: Vec<String> = clients.iter().enumerate().map(|(i, c)| format!("c{}={}", i, c.result)).collect();
+    let res: Vec<String> = clients
+        .iter()
+        .enumerate()
+        .map(|(i, c)| {
+            let mut all = c.results.clone();
+            all.push(c.result.clone());
+            format!("c{}={}", i, all.join("|"))
+        })
+        .collect();
     format!("{} ; fs={}", res.join(" "), listing(&root))
 }
